@@ -76,6 +76,19 @@ def run_case(args):
         else:
             unit = bld.module(ref)
             uports = unit.ports
+        if kind == "series" and case["n"] == 1 and k in ("mod", "ext"):
+            # history: a DIFFERENT unit of the same name (other ports) went through Series(nser=1) earlier in this process
+            if k == "mod":
+                decoy = h.Module(name=ref)
+                decoy.a, decoy.b, decoy.zz = h.Ports(3)
+                decoy.r = h.primitives.IdealResistor(r=1)(p=decoy.a, n=decoy.b)
+                decoy.r2 = h.primitives.IdealResistor(r=1)(p=decoy.zz, n=decoy.b)
+            else:
+                decoy = h.ExternalModule(name=ref, port_list=[h.Port(name="x"), h.Port(name="y"), h.Port(name="zz")], desc="decoy", domain="elsewhere")()
+            try:
+                h.generators.Series(unit=decoy, conns=(list(decoy.ports)[0], list(decoy.ports)[1]), nser=1)
+            except Exception:
+                pass
         if kind == "wrapper":
             m = h.generators.Wrapper(unit)
         elif kind == "mosstack":
